@@ -366,8 +366,10 @@ theorem global_start_stride (c : Cfg) (L : Layout) (hpos : ∀ n ∈ c.shape, 0 
   intro idx hidx
   exact hF.top m hm idx (inbox_of_inshape hF.cov hidx)
 
-/-- The full statement: the layout given to the whole global covers exactly the global's shape and is
-one-to-one on it. FALSE for the code as it is (`global_layout_fails`, finding DC09a). -/
+/-- The full statement for the pattern WITHOUT fix FC12e (`globalLayout`): the layout given to the whole
+global covers exactly the global's shape and is one-to-one on it. FALSE for that code
+(`global_layout_fails`, finding DC09a = C12's DC12f, fixed by FC12e). The repaired pattern is
+`globalLayoutFixed`; its statement `global_layout_statement_fixed` is proved in full (`global_layout`). -/
 def global_layout_statement : Prop :=
   ∀ (c : Cfg) (L : Layout) (g : List Nat) (G : Layout), (∀ n ∈ c.shape, 0 < n) →
     cyclicLayout true c = .ok L → globalLayout L g = .ok (some G) → Covers G g ∧ InjectiveOn G g
@@ -401,6 +403,29 @@ theorem global_layout_fails : ¬ global_layout_statement := by
   have hc := (h dc09aCfg _ [20, 10] _ (by decide) dc09a_layouts.1 dc09a_layouts.2.1).1
   have := hc.2 0 _ 20 rfl rfl
   revert this; decide
+
+/-- The full statement for the repaired pattern (fix FC12e: the pattern only fires when the tile divides
+the global and every static subview offset is tile-aligned). -/
+def global_layout_statement_fixed : Prop :=
+  ∀ (c : Cfg) (L : Layout) (g : List Nat) (offs : List (Option Nat)) (G : Layout), (∀ n ∈ c.shape, 0 < n) →
+    cyclicLayout true c = .ok L → globalLayoutFixed L g offs = .ok (some G) → Covers G g ∧ InjectiveOn G g
+
+/-- **`global_layout`** (full, no clause): whenever the repaired pattern fires, the layout it gives to the
+whole global covers exactly the global's shape and maps distinct elements to distinct addresses — for
+every layout `set-memory-layout` can choose for the tile (padding included), every global, all
+offsets. The former clause `tileDivides` is established by the guard (`tileDividesB_spec`). -/
+theorem global_layout : global_layout_statement_fixed := by
+  intro c L g offs G hpos h hg
+  exact globalLayoutFixed_spec (cyclicLayout_tileFacts hpos h) hg
+
+/-- on the witness of DC09a the repaired pattern does not fire; neither does it for an unaligned static
+offset; it fires (same result as before) for dividing tiles at aligned or dynamic offsets -/
+theorem dc09a_fixed :
+    globalLayoutFixed [[⟨8, 8⟩], [⟨1, 5⟩]] [20, 10] [some 0, some 0] = .ok none ∧
+    globalLayoutFixed [[⟨8, 8⟩], [⟨1, 5⟩]] [32, 5] [some 3, some 0] = .ok none ∧
+    globalLayoutFixed [[⟨8, 8⟩], [⟨1, 5⟩]] [32, 5] [some 16, some 0] = .ok (some [[⟨64, 4⟩, ⟨8, 8⟩], [⟨1, 5⟩]]) ∧
+    globalLayoutFixed [[⟨8, 8⟩], [⟨1, 5⟩]] [32, 5] [none, some 0] = .ok (some [[⟨64, 4⟩, ⟨8, 8⟩], [⟨1, 5⟩]]) := by
+  decide +kernel
 
 /-! ## non-vacuity of the deepening theorems -/
 
